@@ -579,3 +579,44 @@ def lit_truth(lit):
     if lit == ("not", 1):
         return False
     return None
+
+
+def discr_guards_typed(fn, org, B):
+    """Like dominating_guards but only for switches on `discriminant(local)` of a projection-free local:
+    returns [(adt path of the local's type, literal)]."""
+    cfg = org.cfg
+    blocks = fn.body["blocks"]
+    out = []
+    for S in sorted(cfg.live_blocks()):
+        t = blocks[S]["t"]
+        if not t or t["k"] != "switch" or S == B:
+            continue
+        pl = t["d"].get("move") or t["d"].get("copy")
+        if pl is None or pl["p"]:
+            continue
+        src = None
+        for s in reversed(blocks[S]["s"]):
+            if s["k"] == "assign" and s["place"]["l"] == pl["l"] and not s["place"]["p"]:
+                if s["rv"]["k"] == "discr" and not s["rv"]["place"]["p"]:
+                    src = s["rv"]["place"]["l"]
+                break
+        if src is None:
+            continue
+        ty = fn.body["locals"][src]["ty"]
+        adt = ty.get("adt") if isinstance(ty, dict) else None
+        if adt is None:
+            continue
+        succs = {}
+        for v, b in t["targets"]:
+            succs.setdefault(b, []).append(v)
+        succs.setdefault(t["otherwise"], [])
+        for tgt, vals in succs.items():
+            if cfg.edge_dominates(S, tgt, B):
+                if tgt == t["otherwise"] and not vals:
+                    lit = ("not",) + tuple(v for v, _ in t["targets"])
+                elif tgt == t["otherwise"]:
+                    lit = ("any",)
+                else:
+                    lit = tuple(vals)
+                out.append((adt, lit))
+    return out
